@@ -46,8 +46,9 @@ func (k Keeper) LiquidateVaults(ctx sdk.Context, offsetCounterId uint64) error {
 	}
 	// Fetching all  vaults
 	totalVaults := k.vault.GetVaults(ctx)
-	// Getting length of all vaults
-	lengthOfVaults := int(k.vault.GetLengthOfVault(ctx))
+	// Getting length of all vaults: the list itself is sliced below, so its own length is the bound;
+	// the stored vault counter can disagree with it and would then slice out of range
+	lengthOfVaults := len(totalVaults)
 	// Creating start and end slice
 	start, end := types.GetSliceStartEndForLiquidations(lengthOfVaults, int(liquidationOffsetHolder.CurrentOffset), int(params.LiquidationBatchSize))
 	if start == end {
